@@ -6,6 +6,7 @@ import Driver.FixupEng
 import Driver.ArgCheck
 import Driver.Equil
 import Driver.Read
+import Driver.Blas
 import Driver.Pre
 import Driver.Lacon
 import Driver.Rfs
@@ -28,6 +29,7 @@ def main (args : List String) : IO UInt32 := do
   | ["lacon"] => Drv.laconMain (← readAll stdin)
   | ["rfs"] => Drv.rfsMain (← readAll stdin)
   | ["pre"] => Drv.preMain (← readAll stdin)
+  | ["blas"] => Drv.blasMain (← readAll stdin)
   | ["equil"] => Drv.equilMain (← readAll stdin)
   | ["argcheck"] => Drv.argcheckMain (← readAll stdin)
   | ["fixup"] => Drv.fixupMain (← readAll stdin)
